@@ -68,6 +68,12 @@ type IntV struct {
 	V, Unk uint64
 	Dep    *[64]Dep
 	T      *types.Basic
+	// Ex marks unknown bits that are exact copies of one source bit (Dep[p]
+	// is then a singleton naming it). Only bit moves (shifts, masks,
+	// conversions, or-ing with known zeros) keep it; everything else clears
+	// it. Two integers with equal V, Unk, Dep and Ex == Unk are the same
+	// function of the source word.
+	Ex uint64
 }
 
 type BoolV bool
@@ -93,8 +99,10 @@ type StrV string
 type OpaqueV struct {
 	Dep    Dep
 	What   string
-	Prefix string   // constant prefix if it is a string built by Sprintf
-	Parts  []Value  // Sprintf arguments (ordered) when known
+	Prefix string  // constant prefix if it is a string built by Sprintf
+	Parts  []Value // Sprintf arguments (ordered) when known
+	Format string  // Sprintf format / Join separator when known
+	Exact  bool    // Format and Parts determine the string completely
 }
 
 // TermV is an uninterpreted call of a cut-point function.
@@ -319,4 +327,48 @@ func render(v Value, depth int) string {
 		return "{" + strings.Join(a, " ") + "}"
 	}
 	return fmt.Sprintf("%T", v)
+}
+
+// TextSig renders a string-valued result so that two results with the same
+// signature are the same function of the source word. ok is false when some
+// part of the value is not known exactly (then nothing may be concluded).
+func TextSig(v Value) (sig string, ok bool) {
+	switch x := UnwrapV(v).(type) {
+	case StrV:
+		return fmt.Sprintf("%q", string(x)), true
+	case BoolV:
+		return fmt.Sprint(bool(x)), true
+	case IntV:
+		if x.Unk == 0 {
+			return fmt.Sprintf("%s:%d", x.T.Name(), x.V), true
+		}
+		if x.Ex != x.Unk || x.Dep == nil {
+			return "", false
+		}
+		var b strings.Builder
+		fmt.Fprintf(&b, "%s:%x/%x[", x.T.Name(), x.V, x.Unk)
+		for p := 0; p < 64; p++ {
+			if x.Unk>>uint(p)&1 == 1 {
+				fmt.Fprintf(&b, "%d=%x,", p, uint64(x.Dep[p]))
+			}
+		}
+		b.WriteString("]")
+		return b.String(), true
+	case OpaqueV:
+		if !x.Exact {
+			return "", false
+		}
+		var b strings.Builder
+		fmt.Fprintf(&b, "%s(%q", x.What, x.Format)
+		for _, part := range x.Parts {
+			ps, ok := TextSig(part)
+			if !ok {
+				return "", false
+			}
+			b.WriteString("; " + ps)
+		}
+		b.WriteString(")")
+		return b.String(), true
+	}
+	return "", false
 }
